@@ -504,3 +504,39 @@ func BadLexLess(a, b []byte) bool {
 	}
 	return false
 }
+
+// a bool flag set on one branch of a loop body and tested after the loop
+func FlagConst(xs []int) int {
+	seen := false
+	n := 0
+	for _, x := range xs {
+		if x > 0 {
+			seen = true
+			n += x
+		}
+	}
+	if seen {
+		return n
+	}
+	return -1
+}
+
+// not a flag: the tested value is computed
+func FlagComputed(xs []int) int {
+	seen := false
+	for _, x := range xs {
+		seen = x > 0
+	}
+	if seen {
+		return 1
+	}
+	return -1
+}
+
+func litA(x string) []string { return []string{"-d", x, "-j"} }
+func LitPair(x string) ([]string, []string, []string) {
+	a := []string{"-d", x, "-j"}
+	b := []string{"-d", x, "-j"}
+	c := []string{"-s", x, "-j"}
+	return a, b, c
+}
